@@ -124,13 +124,43 @@ def info_total_pl(t):
     return info, total, pl
 
 
+def wrap64_lengths(rng):
+    target = rng.choice([2**63, 2**63 + 1, 2**64 - 2, 2**64 - 1, 2**64, 2**64 + 1, 2**64 + 20000, 2**64 + 2048, 2**64 + 4097, 2**64 + 2**20])
+    n = 2 if target <= 2 * I64MAX and rng.random() < 0.6 else 3
+    if n == 2:
+        a = rng.choice([I64MAX, I64MAX - 1, target // 2, 2**62 + 5])
+        a = max(target - I64MAX, min(a, I64MAX))
+        lens = [a, target - a]
+    else:
+        a = rng.choice([I64MAX, I64MAX - 7, 2**62])
+        b = min(I64MAX, target - a - rng.choice([0, 1, 20002 if target - a - 20002 > 0 else 0]))
+        b = max(b, target - a - I64MAX)
+        lens = [a, b, target - a - b]
+    if any(x < 0 or x > I64MAX for x in lens):
+        lens = [I64MAX, I64MAX, target - 2 * I64MAX] if target >= 2 * I64MAX else [I64MAX, target - I64MAX]
+    rng.shuffle(lens)
+    return lens, target
+
+
+def wrap64_torrent(rng, lens=None, target=None, pl=None):
+    if lens is None:
+        lens, target = wrap64_lengths(rng)
+    pl = pl or rng.choice([1025, 2048, 16384, 1 << 20, PL_MAX])
+    wrapped = target % 2**64
+    # the piece count a wrapping loader computes: ((wrapped + pl - 1) mod 2^64) / pl, if it fits
+    cnt = ((wrapped + pl - 1) % 2**64) // pl
+    pieces = b"\x44" * (20 * cnt) if cnt <= 300 else (rng.choice([b"", b"\x44" * 20]) if rng else b"")
+    files = [M({"length": l, "path": [b"w%d" % i]}) for i, l in enumerate(lens)]
+    return M({"info": M({"name": b"wrap", "piece length": pl, "pieces": pieces, "files": files})}), wrapped
+
+
 # ---------------------------------------------------------------- mutations
 
 def mutate(rng, t, stats):
     """one structural mutation of a valid torrent; returns (tree, unordered flag)"""
     info = mget(t, "info")
     files = mget(info, "files")
-    kinds = ["wrong_type_info_key", "missing_info_key", "wrong_type_top", "length_edge", "piece_length_edge", "piece_length_wrap",
+    kinds = ["wrong_type_info_key", "missing_info_key", "wrong_type_top", "length_edge", "piece_length_edge", "piece_length_wrap", "sum_wrap64",
              "pieces_len", "name_bad", "unordered", "dup_key", "meta_flag", "huge_wrap", "announce_bad"]
     if files is not None:
         kinds += ["path_bad", "path_bad", "path_dup", "path_prefix", "path_prefix_sibling", "path_prefix_sibling", "file_wrong_type", "file_missing", "sum_overflow", "files_shape", "both_length_files"]
@@ -162,6 +192,11 @@ def mutate(rng, t, stats):
         return put_info(mset(info, "length", v)), False
     if kind == "piece_length_edge":
         return put_info(mset(info, "piece length", rng.choice(PIECE_LENGTHS_EDGE))), False
+    if kind == "sum_wrap64":
+        # multi-file lengths (each a valid int64) whose TRUE sum is 2^63 .. 2^64+k, with 'pieces'
+        # sized for the total WRAPPED modulo 2^64 (what a loader summing in uint64 would see)
+        out_t, _ = wrap64_torrent(rng)
+        return out_t, False
     if kind == "piece_length_wrap":
         # a declared piece length that is n modulo 2^32 for an acceptable n, with 'pieces' sized for
         # the geometry of n: a loader that range-checks a TRUNCATED value accepts it
@@ -650,6 +685,13 @@ def hand_cases():
     # hostile names of MULTI-file torrents (root directory = <root>/<name>)
     for nm in [b"../escaped", b"..", b".", b"", b"a/b", b"/abs", b"a\x00b", b"../../x", b"x/../../y"]:
         out.append(T(multi([(1, [b"a"]), (2, [b"b", b"c"])], name=nm)))
+    # multi-file length vectors whose true sum wraps 64 bits, 'pieces' sized for the WRAPPED total
+    for lens, pl in [([I64MAX, I64MAX, 20002], 16384), ([I64MAX, I64MAX], 2048), ([I64MAX, I64MAX], PL_MAX), ([I64MAX, 1], 2048),
+                     ([2**62, 2**62, 2**62, 2**62], 2048), ([I64MAX, I64MAX, 2], 1025), ([I64MAX, I64MAX, 3], 2048),
+                     ([I64MAX, I64MAX, 2 + 2048], 2048), ([I64MAX, 2**62, 2**62 + 4097 + 1], 2048), ([I64MAX, I64MAX, 1], 2048),
+                     ([I64MAX, 2**63 - 2**40, 2**40 + 1 + 5000], 32768), ([1, I64MAX], 2048), ([I64MAX, 0, I64MAX, 0, 2 + 100], 2048)]:
+        tt, _ = wrap64_torrent(None, lens=list(lens), target=sum(lens), pl=pl)
+        out.append(T(tt))
     # declared piece length congruent to an acceptable one modulo 2^32 (e.g. 4294983680 = 2^32 + 16384,
     # -4294934528 = 32768 - 2^32), 'pieces' sized for the truncated geometry
     for n in (1025, 16384, 32768, PL_MAX):
